@@ -68,9 +68,21 @@ pub fn gen(out: &mut Out, _sub: &str) {
         let mut r = rng.fork();
         let externs = externs_c17(&mut r);
         let mut k = knobs();
-        if r.chance(1, 3) {
-            k.subs = (1, 1);
-            k.blocks = (3, 8);
+        match r.below(3) {
+            0 => {
+                k.subs = (1, 1);
+                k.blocks = (3, 8);
+            }
+            1 => {
+                // straight-line chains: source call, internal calls (to returning and non-returning
+                // functions), further source calls and the sink call follow each other
+                k.p_chain = 75;
+                k.w_int_call = 30;
+                k.w_return = 16;
+                k.subs = (2, 3);
+                k.blocks = (2, 7);
+            }
+            _ => {}
         }
         let program = gen_program(&mut r, &k, &externs, &mut PlainHooks(&[("access", 14), ("open", 12), ("chroot", 10), ("chdir", 7), ("setuid", 4), ("stat", 4)]));
         let project = mk_project(program, vec![cconv_std()]);
